@@ -56,21 +56,25 @@ Theorem C12_no_new_names :
     incl (vars (fm_run F e)) (vars e) /\ incl (addrs (fm_run F e)) (addrs e).
 Proof. exact fm_names. Qed.
 
-(** The result contains no symbol pi — for inputs of nesting depth at most LIMIT = 10. *)
+(** The result is never the bare symbol pi (the code's documented invariant "never returns
+    PiConstant"; true since fix 7232075, which the model includes). *)
+Theorem C12_never_bare_pi :
+  forall (F : field_model) (e : expr (fm_C F)), fm_run F e <> Pi.
+Proof. exact fm_never_bare_pi. Qed.
+
+(** For inputs of nesting depth at most LIMIT = 10 the result contains no symbol pi at all. *)
 Theorem C12_no_pi :
   forall (F : field_model) (e : expr (fm_C F)),
     (depth e <= LIMIT)%nat -> has_pi (fm_run F e) = false.
 Proof. exact fm_pi_free. Qed.
 
-(** Beyond that depth the code's documented invariant "never returns PiConstant" fails: nine
-    times [0 + _] around [(%x * pi) / %x] simplifies to the bare symbol pi (the limit is exhausted
-    below the cancellation rule, which then exposes the unsimplified operand).
-    Known finding pi-survives-limit. *)
-Theorem C12_no_pi_refuted :
-  exists e : sx, x_run e = Pi.
-Proof.
-  exists (zero_plus 9 (Infix (Infix (Var 0) Star Pi) Slash (Var 0))). vm_compute. reflexivity.
-Qed.
+(** Regression witness of the fixed finding pi-survives-limit (nine times [0 + _] around
+    [(%x * pi) / %x] used to simplify to the bare symbol), and the reason for the depth bound in
+    [C12_no_pi]: below the limit an interior pi is left alone. *)
+Example C12_pi_examples :
+  x_run (zero_plus 9 (Infix (Infix (Var 0) Star Pi) Slash (Var 0))) = Num SPi
+  /\ has_pi (x_run (zero_plus 10 (Infix (Var 0) Star Pi))) = true.
+Proof. vm_compute. split; reflexivity. Qed.
 
 (** Every step the simplifier takes is one of the listed rewrites (one constructor of [rw] per
     arm), and each rewrite preserves the value (lemmas [P_*] in Proofs/SimplifyProofs.v); this is
